@@ -1,2 +1,171 @@
-(* C09 — stub *)
-From Zap Require Import Base.Wire C09.Model.
+(* C09 — proofs: the generated table satisfies the disciplines; consequences for all
+   programs, instances and schedules; the pre-fix lazyWithCore summary does not; the
+   wire oracle is the proved property. *)
+From Coq Require Import List ZArith Bool String Arith Lia.
+From Coq.Strings Require Import Byte.
+Import ListNotations.
+From Zap Require Import Base.Wire C09.Sem C09.Race C09.Deadlock C09.Facts C09.Inst C09.Orig C09.Model Gen.AccessFacts.
+From Zap Require C09.Diag.   (* printed before any obligation below can break *)
+
+Ltac bools :=
+  repeat match goal with
+  | H : _ && _ = true |- _ => apply andb_true_iff in H; destruct H
+  end.
+
+(* ---------------------------------------------------------------- table-level soundness *)
+Lemma allacc_notin P f (k : code nat) : ~ In f (ids_of 0 k) -> allacc Nat.eqb P f k = true.
+Proof.
+  induction k as [|g0 w k IHk|g0 k IHk|m x k1 IHk1 k2 IHk2|p k1 IHk1 k2 IHk2|k1 IHk1 k2 IHk2|ch k IHk|ch k IHk|m x k IHk|p k IHk];
+    cbn [ids_of allacc Nat.eqb app]; intros H; auto.
+  - assert (g0 <> f) by (intros ->; apply H; now left). apply Nat.eqb_neq in H0. rewrite H0. cbn.
+    apply IHk. intros Hi. apply H. now right.
+  - assert (g0 <> f) by (intros ->; apply H; now left). apply Nat.eqb_neq in H0. rewrite H0. cbn.
+    apply IHk. intros Hi. apply H. now right.
+  - rewrite IHk1, IHk2; auto; intros Hi; apply H; apply in_or_app; auto.
+  - rewrite IHk1, IHk2; auto; intros Hi; apply H; apply in_or_app; auto.
+  - rewrite IHk1, IHk2; auto; intros Hi; apply H; apply in_or_app; auto.
+Qed.
+
+Lemma memb_in x l : memb x l = true <-> In x l.
+Proof.
+  unfold memb. rewrite existsb_exists. split.
+  - intros (y & Hy & E). apply Nat.eqb_eq in E. now subst.
+  - intros H. exists x. split; [exact H|apply Nat.eqb_refl].
+Qed.
+
+Lemma facts_all Us ex : discipline_ok Us ex = true -> forall f, memb f ex = false -> field_ok Us f = true.
+Proof.
+  intros D f Hf. unfold discipline_ok in D. bools.
+  destruct (in_dec Nat.eq_dec f (fields Us)) as [Hi|Hn].
+  - rewrite forallb_forall in H0. specialize (H0 _ Hi). rewrite Hf in H0. exact H0.
+  - unfold field_ok. assert (A : cls_a Us f = true); [|now rewrite A].
+    unfold cls_a, all_units. apply forallb_forall. intros u Hu. apply allacc_notin.
+    intros Hi. apply Hn. unfold fields. apply in_flat_map. eauto.
+Qed.
+
+Lemma discipline_pure Us ex : discipline_ok Us ex = true -> units_pure Us = true.
+Proof. intros D. unfold discipline_ok in D. bools. assumption. Qed.
+
+Theorem discipline_sound_thm : forall Us ex, discipline_ok Us ex = true ->
+  forall prog, from_facts Us prog -> forall sched i f, memb f ex = false ->
+  ~ race_state (i, f) (run eqb2 prog sched).
+Proof.
+  intros Us ex D prog Hp sched i f Hf.
+  exact (discipline_sound Us (discipline_pure _ _ D) f (facts_all _ _ D f Hf) prog Hp i sched).
+Qed.
+
+Theorem no_deadlock_thm : forall Us rkf, deadlock_ok Us rkf = true ->
+  forall prog, from_facts Us prog -> forall sched,
+    let s := run eqb2 prog sched in
+    (forall t, blocked_lo s t -> exists t', can_step s t' = true) /\
+    (forall t c, waits_chan s t c -> forall r, ~ holdsP s t r).
+Proof.
+  intros Us rkf D prog Hp sched s. unfold deadlock_ok in D. bools.
+  destruct (deadlock_sound Us rkf H H0 prog Hp sched) as (A & B & _). split; assumption.
+Qed.
+
+(* ---------------------------------------------------------------- the generated facts *)
+Lemma facts_thm : discipline_ok U exempt = true.
+Proof. vm_compute. reflexivity. Qed.
+
+Lemma facts_deadlock_thm : deadlock_ok U rk = true.
+Proof. vm_compute. reflexivity. Qed.
+
+Lemma units_nonempty : 50 <= List.length units.
+Proof. vm_compute. repeat constructor. Qed.
+
+(* ---------------------------------------------------------------- pre-fix lazyWithCore *)
+Lemma facts_orig_refuted :
+  discipline_ok U_orig [] = false /\ field_ok U_orig 0 = false /\
+  from_facts U_orig prog_orig /\ race_state (0, 0) (run eqb2 prog_orig sched_orig).
+Proof.
+  split; [vm_compute; reflexivity|]. split; [vm_compute; reflexivity|]. split.
+  - intros k [<-|[<-|[]]].
+    + exists [(0, lazy_check_orig)]. split; [|reflexivity]. intros c [<-|[]]. cbn. auto.
+    + exists [(0, lazy_enabled_orig)]. split; [|reflexivity]. intros c [<-|[]]. cbn. auto 6.
+  - exists 0, 1. do 2 eexists. exists (Plain true), (Plain false).
+    split; [discriminate|]. split; [vm_compute; reflexivity|]. split; [vm_compute; reflexivity|].
+    split; [reflexivity|]. split; reflexivity.
+Qed.
+
+(* ---------------------------------------------------------------- executable race test *)
+Lemma raceb_l_spec (flt : oref -> bool) (l : list (code oref)) : raceb_l eqb2 flt l = true ->
+  exists i j k1 k2, i <> j /\ nth_error l i = Some k1 /\ nth_error l j = Some k2 /\ head_conf eqb2 flt k1 k2 = true.
+Proof.
+  induction l as [|k r IH]; cbn [raceb_l]; [discriminate|].
+  intros H. apply orb_true_iff in H as [H|H].
+  - apply existsb_exists in H as (k2 & Hin & Hc). apply In_nth_error in Hin as [j Hj].
+    exists 0, (S j), k, k2. cbn. auto.
+  - destruct (IH H) as (i & j & k1 & k2 & Hn & H1 & H2 & Hc).
+    exists (S i), (S j), k1, k2. cbn. auto.
+Qed.
+
+Lemma raceb_race flt (s : state oref) : raceb eqb2 flt s = true ->
+  exists f, flt f = true /\ race_state f s.
+Proof.
+  intros H. apply raceb_l_spec in H as (i & j & k1 & k2 & Hn & H1 & H2 & Hc).
+  unfold head_conf in Hc.
+  destruct (head k1) as [[f1 a1]|] eqn:E1; [|discriminate].
+  destruct (head k2) as [[f2 a2]|] eqn:E2; [|discriminate]. bools.
+  apply eqb2_ok in H. subst f2.
+  exists f1. split; [assumption|]. exists i, j, k1, k2, a1, a2. auto 10.
+Qed.
+
+Lemma scan_clean ex prog : 
+  (forall sched, raceb eqb2 (covered ex) (run eqb2 prog sched) = false) ->
+  (forall sched, lock_deadb (run eqb2 prog sched) = false) ->
+  forall sched pre, scan ex (run eqb2 prog pre) sched false false = (false, false).
+Proof.
+  intros HR HD. induction sched as [|t r IH]; intros pre; cbn [scan].
+  - now rewrite HR, HD.
+  - rewrite HR, HD. cbn [orb].
+    replace (step eqb2 (run eqb2 prog pre) t) with (run eqb2 prog (pre ++ [t])); [apply IH|].
+    unfold run. now rewrite fold_left_app.
+Qed.
+
+Lemma find_unit_in n us c : find_unit n us = Some c -> In c (map snd us).
+Proof.
+  induction us as [|[s c'] r IH]; cbn; [discriminate|].
+  destruct (bytes_eqb s n); [intros [= ->]; now left|right; auto].
+Qed.
+
+Lemma dec_calls_ok us l : calls_ok (map snd us) (fst (dec_calls us l)).
+Proof.
+  induction l as [|x r IH]; cbn [dec_calls]; [intros c []|].
+  destruct (dec_calls us r) as [cs u] eqn:E. cbn [fst] in IH.
+  destruct (find_unit (sx_b (sx_nth x 1)) us) as [c|] eqn:F; cbn [fst]; [|exact IH].
+  intros c0 [<-|Hc]; [cbn; eapply find_unit_in; eauto|auto].
+Qed.
+
+Lemma dec_threads_ok us l : Forall (calls_ok (map snd us)) (fst (dec_threads us l)).
+Proof.
+  induction l as [|x r IH]; cbn [dec_threads]; [constructor|].
+  destruct (dec_threads us r) as [ts u] eqn:E. cbn [fst] in IH.
+  pose proof (dec_calls_ok us (sx_l x)) as C.
+  destruct (dec_calls us (sx_l x)) as [cs v]. cbn [fst] in *. constructor; assumption.
+Qed.
+
+Lemma model_from_facts us l : from_facts (map snd us) (map thread_of (fst (dec_threads us l))).
+Proof.
+  pose proof (dec_threads_ok us l) as F. rewrite Forall_forall in F.
+  intros k Hk. apply in_map_iff in Hk as (cs & <- & Hc). exists cs. split; [auto|reflexivity].
+Qed.
+
+Theorem wire_thm : forall i, wf i = true -> spec i (model i) = true.
+Proof.
+  intros i W. unfold model, model_with, wf in *.
+  pose proof (model_from_facts units (sx_l (sx_nth i 0))) as FF. fold U in FF.
+  destruct (dec_threads units (sx_l (sx_nth i 0))) as [ts unk] eqn:E. cbn [fst snd] in *.
+  apply Nat.eqb_eq in W. subst unk.
+  set (prog := map thread_of ts) in *.
+  assert (HR : forall sched, raceb eqb2 (covered exempt) (run eqb2 prog sched) = false).
+  { intros sched. destruct (raceb eqb2 (covered exempt) (run eqb2 prog sched)) eqn:R; [|reflexivity].
+    apply raceb_race in R as ([j f] & Hc & Hr). exfalso.
+    unfold covered in Hc. cbn [snd] in Hc. apply negb_true_iff in Hc.
+    exact (discipline_sound_thm U exempt facts_thm prog FF sched j f Hc Hr). }
+  assert (HD : forall sched, lock_deadb (run eqb2 prog sched) = false).
+  { intros sched. pose proof facts_deadlock_thm as D. unfold deadlock_ok in D. bools.
+    exact (proj2 (proj2 (deadlock_sound U rk H H0 prog FF sched))). }
+  change (init prog) with (run eqb2 prog []).
+  rewrite (scan_clean exempt prog HR HD). reflexivity.
+Qed.
